@@ -415,6 +415,18 @@ impl Process {
         self.state
     }
 
+    /// Returns true if this process has terminated and the parent process has
+    /// already obtained the termination status by [`take_state`](Self::take_state).
+    ///
+    /// Such a process no longer exists from the viewpoint of other processes.
+    /// In a real system, the process ID would no longer refer to any process,
+    /// so system calls like `kill` must treat it as non-existent.
+    #[must_use]
+    pub fn has_been_reaped(&self) -> bool {
+        !self.state_has_changed
+            && matches!(self.state, ProcessState::Halted(result) if !result.is_stopped())
+    }
+
     /// Returns the currently blocked signals.
     pub fn blocked_signals(&self) -> &Sigset {
         &self.blocked_signals
